@@ -38,16 +38,17 @@ pub fn spec_valid(s: &Spec) -> Result<(), String> {
 /// Is the scenario inside the domain every f64 property is conditioned on?
 /// finite inputs of moderate magnitude; positive where the tree needs it.
 pub fn domain_check(sc: &Scenario, max_mag: f64) -> Result<(), String> {
-    let mut need_pos = false;
+    use crate::spec::Sign;
+    let mut need = Sign::Any;
     for t in &sc.trees {
         spec_valid(t)?;
-        if t.needs_positive_feed() {
-            need_pos = true;
-            if !t.domain_ok_positive_feed() {
-                return Err("a Drawdown/LnReturn/divisor position is fed by a view that is not positivity-preserving".into());
-            }
+        match t.feed_sign() {
+            Some(s) => need = need.max(s),
+            None => return Err("a Drawdown/LnReturn/divisor position is fed by a view that is not positivity-preserving".into()),
         }
     }
+    let need_pos = need == Sign::Positive;
+    let need_nonneg = need == Sign::NonNeg;
     let chk = |v: f64| -> Result<(), String> {
         if !v.is_finite() {
             return Err("non-finite input".into());
@@ -57,6 +58,9 @@ pub fn domain_check(sc: &Scenario, max_mag: f64) -> Result<(), String> {
         }
         if need_pos && !(v > 0.0) {
             return Err("non-positive input for a tree that needs a positive feed".into());
+        }
+        if need_nonneg && !(v >= 0.0) {
+            return Err("negative input for a tree that needs a non-negative feed".into());
         }
         Ok(())
     };
@@ -75,7 +79,7 @@ pub fn domain_check(sc: &Scenario, max_mag: f64) -> Result<(), String> {
             if !scale.is_finite() || scale.abs() * 4.25 > max_mag {
                 return Err("generator scale outside the moderate range".into());
             }
-            if need_pos && !*positive {
+            if (need_pos || need_nonneg) && !*positive {
                 return Err("generator not positive for a tree that needs a positive feed".into());
             }
         }
@@ -228,4 +232,21 @@ pub fn fed_immoderate_magnitude(spec: &Spec, vals: &[f64], sym: Symptom) -> bool
 fn culprit_is_root(spec: &Spec, vals: &[f64], sym: Symptom) -> bool {
     let c = culprit(spec, vals, sym);
     c.starts_with(spec.k.name())
+}
+
+/// the feed class for a set of trees: the weakest the domain analysis allows, made stricter at random
+/// (so trees that tolerate zeros are also exercised on strictly positive streams)
+pub fn pick_feed_sign(r: &mut Rng, trees: &[Spec]) -> crate::spec::Sign {
+    use crate::spec::Sign;
+    let mut need = Sign::Any;
+    for t in trees {
+        need = need.max(t.feed_sign().unwrap_or(Sign::Positive));
+    }
+    match need {
+        Sign::Any => Sign::Any,
+        Sign::NonNeg => {
+            if r.chance(0.3) { Sign::Positive } else { Sign::NonNeg }
+        }
+        Sign::Positive => Sign::Positive,
+    }
 }
